@@ -69,23 +69,40 @@ def summary(prog, lf, mut_params):
 
 
 def tree_summary(prog, lf, mut_params):
-    """decision tree over the callee's parameters whose leaves are tuples (returned value, final value of each &mut pointee)"""
+    """(decision tree over the callee's parameters whose leaves are tuples (returned value, final value of each &mut pointee,
+    final value of every other place written through a pointer that is reachable from the parameters), [those other places])"""
     key = ("fxtree", lf["id"], tuple(mut_params))
     if key in prog._hints:
         return prog._hints[key]
     res = None
     sub = prog.analysis(lf)
     if sub is not None and not sub.loops:
-        def value_of(t, st):
-            vals = [t]
-            for i in mut_params:
-                v = sub.read(st, (("M", T.param(i)), ()))
-                vals.append(v)
-            return T.agg("tuple", None, 0, None, vals)
-        items = prog.leaf_items(sub, value_of)
-        if items:
-            from .engine import build_tree
-            res = build_tree(items)
+        direct = {("M", T.param(i)) for i in mut_params}
+        ps = sub.paths()
+        extra = []
+        ok = ps is not None
+        for t_, st_, _ in ps or []:
+            for (root, path) in st_.env:
+                if root[0] == "M" and root not in direct and (root, path) not in extra:
+                    if prog._closed(root[1]):
+                        extra.append((root, path))
+                    else:
+                        ok = False       # a write through a pointer this summary cannot name
+        extra.sort(key=repr)
+        if ok:
+            def value_of(t, st):
+                vals = [t]
+                for i in mut_params:
+                    vals.append(sub.read(st, (("M", T.param(i)), ())))
+                for lv in extra:
+                    vals.append(sub.read(st, lv))
+                return T.agg("tuple", None, 0, None, vals)
+            items = prog.leaf_items(sub, value_of)
+            if items:
+                from .engine import build_tree
+                tr = build_tree(items)
+                if tr is not None:
+                    res = (tr, extra)
     prog._hints[key] = res
     return res
 
@@ -97,18 +114,37 @@ def apply_effect_summary(prog, an, st, site, lf, callee, generics, args, arg_lvs
         return None
     if not prog.known_name(lf):
         # a helper the rules do not know by name: describe it by cases (so that extracting it changed nothing)
-        tree = tree_summary(prog, lf, mut_params)
-        if tree is not None:
+        ts = tree_summary(prog, lf, mut_params)
+        if ts is not None:
+            tree, extra = ts
             before = {i: an.read(st, arg_lvs[i]) for i in mut_idx}
             cargs = [T.refval(before[i]) if i in mut_idx else prog._stabilise(an, st, a) for i, a in enumerate(args)]
-            inst = prog.subst(an, st, tree, cargs, prog.gmap(lf, callee))
-            if inst is not None:
+            gm = prog.gmap(lf, callee)
+            inst = prog.subst(an, st, tree, cargs, gm)
+            # where do the other written places live in the caller?  (e.g. `*captured_ref = ..` inside a closure)
+            targets = []
+            okx = inst is not None
+            for (root, path) in extra:
+                ptr = prog.subst(an, st, root[1], [args[i] if i in mut_idx else c for i, c in enumerate(cargs)], gm) if okx else None
+                if ptr is None:
+                    okx = False
+                    break
+                if ptr.op == "ref":
+                    targets.append((ptr.args[0], tuple(ptr.args[1]) + tuple(path)))
+                elif ptr.op == "refval":
+                    okx = False      # the caller only has the value, not the place
+                    break
+                else:
+                    targets.append((("M", ptr), tuple(path)))
+            if okx:
                 for k, i in enumerate(mut_idx):
                     nv = T.proj(inst, ("f", k + 1, None))
                     for x in nv.subterms():
                         if x.op == "bin" and x.args[0] == "Add":
                             prog.noovf.add(x)
                     an.write(st, arg_lvs[i], nv)
+                for k, lv in enumerate(targets):
+                    an.write(st, lv, T.proj(inst, ("f", len(mut_idx) + 1 + k, None)))
                 return T.proj(inst, ("f", 0, None))
     s = summary(prog, lf, mut_params)
     if s["base"] is None:
